@@ -17,6 +17,7 @@ import (
 	"verif/gen/pegen"
 	"verif/internal/hx"
 	"verif/keys"
+	"verif/ref/der"
 	"verif/ref/refp7"
 	"verif/ref/refpe"
 	"verif/shim/vtime"
@@ -91,6 +92,12 @@ func c02Sign(img []byte, k int) ([]byte, []byte, error) {
 		return nil, nil, err
 	}
 	return p.Bytes(), sig, nil
+}
+
+// c02SignBlob returns the signature blob the library produces for img with key k.
+func c02SignBlob(img []byte, k int) ([]byte, error) {
+	_, sig, err := c02Sign(img, k)
+	return sig, err
 }
 
 type c02Certs struct {
@@ -229,13 +236,52 @@ func c02Run(c *hx.Ctx, tier, unit string) {
 				continue
 			}
 			for _, variant := range []string{"embedded digest replaced by the digest of a modified image", "embedded digest and messageDigest attribute replaced to match a modified image",
-				"modified image re-signed by another key naming the original certificate", "modified image re-signed by another key naming its own certificate"} {
+				"modified image re-signed by another key naming the original certificate", "modified image re-signed by another key naming its own certificate",
+				"modified image: content replaced, genuine signer kept, another validly signing signer vouches for the new content (placed first)",
+				"modified image: content replaced, genuine signer kept, another validly signing signer vouches for the new content (placed last)",
+				"modified image: content replaced, genuine signer kept, decoy signer entry carries the new digest (placed first)",
+				"modified image: content replaced, genuine signer kept, decoy signer entry carries the new digest (placed last)"} {
 				t, err := p7Open(sig)
 				if err != nil {
 					continue
 				}
 				inner := t.ci.Children[1].Children[0]
 				inner.Children[1].Children[1].Val = nd
+				if strings.HasPrefix(variant, "modified image: content replaced") {
+					// genuine signer entry untouched; a second entry vouches for the new content
+					md := sha256Sum(inner.Content())
+					n := t.si.Clone()
+					var nattrs *der.Node
+					for _, ch := range n.Children {
+						if ch.Tag == 0xa0 {
+							nattrs = ch
+						}
+					}
+					for _, a := range nattrs.Children {
+						if bytes.Equal(a.Children[0].Val, refp7.OIDMessageDigest) {
+							a.Children[1].Children[0].Val = md
+						}
+					}
+					if strings.Contains(variant, "decoy") {
+						sv := n.Children[1].Children[1].Val
+						sv[len(sv)-1] ^= 0x5a
+					} else {
+						n.Children[1].Children[0] = derMustParse(keys.C(2).RawIssuer).Clone()
+						n.Children[1].Children[1].Val = serialBytes(keys.C(2).SerialNumber)
+						for j, ch := range n.Children {
+							if ch.Tag == 0x04 {
+								n.Children[j].Val = signAttrs(keys.K(2), nattrs)
+							}
+						}
+					}
+					if strings.Contains(variant, "first") {
+						t.signers.Children = append([]*der.Node{n}, t.signers.Children...)
+					} else {
+						t.signers.Children = append(t.signers.Children, n)
+					}
+					c02Judge(c, c02Embed(mod, t.root.Encode()), variant, certs, false)
+					continue
+				}
 				if variant != "embedded digest replaced by the digest of a modified image" {
 					md := sha256Sum(inner.Content())
 					for _, a := range t.attrs.Children {
@@ -300,9 +346,16 @@ func c02Run(c *hx.Ctx, tier, unit string) {
 				binary.LittleEndian.PutUint32(y[imj.CertDirOff:], uint32(off))
 				binary.LittleEndian.PutUint32(y[imj.CertDirOff+4:], uint32(len(tbl)))
 				c02Judge(c, y, "certificate table transplanted from another image", certs, false)
-				// both signatures present: own (valid) first / second
-				both := c02Embed(all[j].raw, all[i].sig)
-				_ = both
+				// the other image carries its own valid signature by ANOTHER key, and the transplanted
+				// genuine signature of image i sits behind / in front of it
+				if own, err := c02SignBlob(all[j].raw, 2); err == nil {
+					if z, err := refpe.Attach(all[j].raw, own, all[i].sig); err == nil {
+						c02Judge(c, z, "transplanted signature behind the image's own signature by another key", certs, false)
+					}
+					if z, err := refpe.Attach(all[j].raw, all[i].sig, own); err == nil {
+						c02Judge(c, z, "transplanted signature in front of the image's own signature by another key", certs, false)
+					}
+				}
 			}
 		}
 	}
